@@ -165,6 +165,10 @@ func TestVerifC04Child(t *testing.T) {
 		vfC04ChildBatch(t, bf)
 		return
 	}
+	if os.Getenv("VERIF_C04_WORKER") != "" {
+		vfC04WorkerLoop(t)
+		return
+	}
 	h := os.Getenv("VERIF_C04_CHILD")
 	if h == "" {
 		t.Skip("child mode only")
@@ -387,31 +391,171 @@ func vfC04StreamFile() vfC04File {
 	}}
 }
 
-// vfC04ParseGuarded: in-process when safe, otherwise in a child process with
-// a memory limit and a wall-clock budget. Returns the token or "oom"/"hang"/"crash".
-func vfC04ParseGuarded(s *vfutil.Session, f []byte, risky bool) string {
-	if !risky {
-		return vfC04ParseTok(f)
-	}
-	s.Count("parse_in_child_process")
-	ctx, cancel := context.WithTimeout(context.Background(), 60*time.Second)
-	defer cancel()
-	cmd := exec.CommandContext(ctx, os.Args[0], "-test.run", "^TestVerifC04Child$", "-test.count", "1")
-	cmd.Env = append(os.Environ(), "VERIF_C04_CHILD="+vfutil.Hex(f), "GOMEMLIMIT=512MiB", "VERIF_OUT="+os.TempDir())
-	out, err := cmd.CombinedOutput()
-	for _, l := range strings.Split(string(out), "\n") {
-		if strings.HasPrefix(l, "C04CHILD ") {
-			return strings.TrimSpace(strings.TrimPrefix(l, "C04CHILD "))
+// ---------------------------------------------------------------- the worker child
+//
+// EVERYTHING the harness does with a damaged snapshot (parse, SendRdb, SendRdb
+// through the cache reader) runs in a long-lived child process ("worker"): one
+// request line in, one "C04R …" line out. A parser or decoder that lets a panic
+// escape, exhausts memory or spins kills / stalls only the worker: the parent
+// reports `crash` / `oom` / `hang` for exactly that input and starts a new worker.
+
+type vfC04Req struct {
+	Kind string     `json:"kind"` // parse | send | cached
+	Data string     `json:"data"` // hex
+	Size int64      `json:"size"`
+	KVs  []vfc20.KV `json:"kvs,omitempty"`
+	Opts vfC04Opts  `json:"opts"`
+}
+
+type vfC04Resp struct {
+	Tok     string   `json:"tok,omitempty"`
+	Err     string   `json:"err,omitempty"`
+	IsErr   bool     `json:"iserr"`
+	Cp      bool     `json:"cp"`
+	All     bool     `json:"all"`
+	Missing []string `json:"missing,omitempty"`
+	NReq    int      `json:"nreq"`
+	Hang    string   `json:"hang,omitempty"`
+	Leak    bool     `json:"leak"`
+}
+
+func vfC04WorkerLoop(t *testing.T) {
+	lim := syscall.Rlimit{Cur: 6 << 30, Max: 6 << 30}
+	syscall.Setrlimit(syscall.RLIMIT_AS, &lim)
+	sc := bufio.NewScanner(os.Stdin)
+	sc.Buffer(make([]byte, 1<<22), 1<<26)
+	for sc.Scan() {
+		var rq vfC04Req
+		if json.Unmarshal(sc.Bytes(), &rq) != nil {
+			fmt.Printf("C04R {\"err\":\"bad request\"}\n")
+			continue
 		}
+		data := vfutil.UnHex(rq.Data)
+		var rp vfC04Resp
+		switch rq.Kind {
+		case "parse":
+			rp.Tok = vfC04ParseTok(data)
+		case "send", "cached":
+			var r vfC04Res
+			if rq.Kind == "send" {
+				r = vfC04Send(t, rq.KVs, data, rq.Size, rq.Opts)
+			} else {
+				r = vfC04SendCached(t, rq.KVs, data, rq.Size, rq.Opts)
+			}
+			rp.IsErr, rp.Cp, rp.All, rp.Missing, rp.NReq, rp.Hang, rp.Leak = r.Err != nil, r.Cp, r.AllApplied, r.Missing, r.NReq, r.Hang, r.Leak
+			if r.Err != nil {
+				rp.Err = r.Err.Error()
+				if len(rp.Err) > 300 {
+					rp.Err = rp.Err[:300]
+				}
+			}
+		}
+		b, _ := json.Marshal(rp)
+		fmt.Printf("C04R %s\n", b)
+		os.Stdout.Sync()
 	}
-	if ctx.Err() != nil {
-		return "hang"
+}
+
+type vfC04Worker struct {
+	cmd    *exec.Cmd
+	in     interface{ Write([]byte) (int, error) }
+	lines  chan string
+	stderr *bytes.Buffer
+	starts int
+}
+
+var vfC04W = &vfC04Worker{}
+
+func (w *vfC04Worker) start() {
+	w.starts++
+	cmd := exec.Command(os.Args[0], "-test.run", "^TestVerifC04Child$", "-test.count", "1", "-test.timeout", "60m")
+	cmd.Env = append(os.Environ(), "VERIF_C04_WORKER=1", "VERIF_OUT="+os.TempDir(), "GOMEMLIMIT=3GiB")
+	in, _ := cmd.StdinPipe()
+	out, _ := cmd.StdoutPipe()
+	w.stderr = &bytes.Buffer{}
+	cmd.Stderr = w.stderr
+	if err := cmd.Start(); err != nil {
+		panic(err)
 	}
-	if strings.Contains(string(out), "out of memory") {
-		return "oom"
+	w.cmd, w.in = cmd, in
+	lines := make(chan string, 16)
+	w.lines = lines
+	go func() {
+		sc := bufio.NewScanner(out)
+		sc.Buffer(make([]byte, 1<<20), 1<<24)
+		for sc.Scan() {
+			if strings.HasPrefix(sc.Text(), "C04R ") {
+				lines <- sc.Text()[5:]
+			}
+		}
+		close(lines)
+	}()
+}
+
+func (w *vfC04Worker) stop() {
+	if w.cmd != nil {
+		w.cmd.Process.Kill()
+		w.cmd.Wait()
+		w.cmd = nil
 	}
-	_ = err
-	return "crash"
+}
+
+// call: the response, or how the worker died on this request ("crash" | "oom" | "hang") with a stderr tail
+func (w *vfC04Worker) call(rq vfC04Req) (vfC04Resp, string, string) {
+	if w.cmd == nil {
+		w.start()
+	}
+	b, _ := json.Marshal(rq)
+	w.in.Write(append(b, '\n'))
+	select {
+	case l, ok := <-w.lines:
+		if ok {
+			var rp vfC04Resp
+			json.Unmarshal([]byte(l), &rp)
+			return rp, "", ""
+		}
+		w.cmd.Wait()
+		w.cmd = nil
+		tail := w.stderr.String()
+		how := "crash"
+		if strings.Contains(tail, "out of memory") || strings.Contains(tail, "cannot allocate") {
+			how = "oom"
+		}
+		if len(tail) > 500 {
+			tail = tail[:500]
+		}
+		return vfC04Resp{}, how, tail
+	case <-time.After(60 * time.Second):
+		w.stop()
+		return vfC04Resp{}, "hang", "no answer within 60 s wall-clock"
+	}
+}
+
+// vfC04ParseGuarded: the REAL rdb.ParseRdb on `f`, in the worker child. Returns
+// the token; a worker death is reported as the violation crash / oom / hang
+// with the input, and the token "!<how>" is returned.
+func vfC04ParseGuarded(s *vfutil.Session, f []byte, risky bool) string {
+	rp, died, tail := vfC04W.call(vfC04Req{Kind: "parse", Data: vfutil.Hex(f)})
+	if died != "" {
+		s.Count("viol_" + died)
+		s.Violate(died, "damaged snapshot: rdb.ParseRdb does not return an error, the process dies ("+died+"): "+tail,
+			map[string]interface{}{"scenario": "parse", "rdb": vfutil.Hex(f)})
+		return "!" + died
+	}
+	return rp.Tok
+}
+
+// vfC04SendD / vfC04SendCachedD: the pipeline on (possibly) damaged input, in the worker child.
+func vfC04SendD(kind string, kvs []vfc20.KV, data []byte, size int64, o vfC04Opts) vfC04Res {
+	rp, died, tail := vfC04W.call(vfC04Req{Kind: kind, Data: vfutil.Hex(data), Size: size, KVs: kvs, Opts: o})
+	if died != "" {
+		return vfC04Res{Died: died, Hang: tail}
+	}
+	r := vfC04Res{Cp: rp.Cp, AllApplied: rp.All, Missing: rp.Missing, NReq: rp.NReq, Hang: rp.Hang, Leak: rp.Leak}
+	if rp.IsErr {
+		r.Err = fmt.Errorf("%s", rp.Err)
+	}
+	return r
 }
 
 // ---------------------------------------------------------------- the real pipeline
@@ -444,6 +588,7 @@ type vfC04Res struct {
 	Hang       string
 	Leak       bool
 	FailCmd    string // command of the request the fault was injected at
+	Died       string // the worker child died on this case: crash | oom | hang
 }
 
 func vfC04DefaultOpts() vfC04Opts {
@@ -695,6 +840,11 @@ func vfC04SendCached(t *testing.T, kvs []vfc20.KV, data []byte, size int64, o vf
 
 func vfC04Monitor(s *vfutil.Session, what string, file string, data []byte, o vfC04Opts, r vfC04Res) {
 	rp := map[string]interface{}{"scenario": what, "file": file, "rdb": vfutil.Hex(data), "opts": o.String()}
+	if r.Died != "" {
+		s.Count("viol_" + r.Died)
+		s.Violate(r.Died, fmt.Sprintf("%s: the replay does not return an error, the process dies (%s): %s", what, r.Died, r.Hang), rp)
+		return
+	}
 	if r.Hang != "" {
 		if os.Getenv("VERIF_DEBUG") != "" {
 			fmt.Printf("VFDEBUG hang %s %s %s: %s\n", what, file, o.String(), r.Hang)
@@ -773,6 +923,7 @@ func TestVerifC04(t *testing.T) {
 	}
 	s := vfutil.NewSession("C04")
 	defer s.Close()
+	defer vfC04W.stop()
 	maxVer := int(rdb.RdbVersion)
 	rnd := vfutil.NewRand(vfutil.Seed())
 
@@ -849,11 +1000,8 @@ func TestVerifC04(t *testing.T) {
 			f := vfutil.UnHex(parts[1])
 			sup, risky := vfc20.Classify(f)
 			tok := vfC04ParseGuarded(s, f, risky)
-			if tok == "oom" || tok == "hang" || tok == "crash" {
-				s.Violate(tok, "damaged snapshot does not yield an error but a "+tok, map[string]interface{}{"scenario": "corpus-parse", "rdb": parts[1]})
-				s.Count("viol_" + tok)
-				tok = "e0"
-				continue
+			if strings.HasPrefix(tok, "!") {
+				continue // reported by vfC04ParseGuarded
 			}
 			if !sup {
 				tok = "u"
@@ -867,8 +1015,8 @@ func TestVerifC04(t *testing.T) {
 					data := f.bytes()
 					o := vfC04DefaultOpts()
 					mark("corpus " + l)
-					r := vfC04SendCached(t, f.KVs, data[:k], int64(len(data)), o)
-					if r.Hang != "" {
+					r := vfC04SendD("cached", f.KVs, data[:k], int64(len(data)), o)
+					if r.Hang != "" && r.Died == "" {
 						s.Count("viol_hang")
 						s.Violate("hang", fmt.Sprintf("finished cache file holds %d of %d bytes: %s", k, len(data), r.Hang),
 							map[string]interface{}{"scenario": "send-cached-short-file", "file": f.Name, "held": k, "size": len(data)})
@@ -899,7 +1047,7 @@ func TestVerifC04(t *testing.T) {
 				}
 			}
 			mark("corpus " + l)
-			r := vfC04Send(t, kvs, data, int64(len(data)), o)
+			r := vfC04SendD("send", kvs, data, int64(len(data)), o)
 			vfC04Monitor(s, "corpus-send", p4[1], data, o, r)
 			s.Count("case_corpus")
 		}
@@ -965,13 +1113,6 @@ func TestVerifC04(t *testing.T) {
 				sup, risky := vfc20.Classify(g)
 				tok := vfC04ParseGuarded(s, g, risky)
 				s.Count("parse_alterations")
-				switch tok {
-				case "oom", "hang", "crash":
-					s.Count("viol_" + tok)
-					s.Violate(tok, fmt.Sprintf("%s with byte %d XOR 0x%02x: the parser does not return an error, the process dies (%s)", f.Name, pos, m, tok),
-						map[string]interface{}{"scenario": "xor-parse", "file": f.Name, "pos": pos, "mask": m, "rdb": vfutil.Hex(g)})
-					tok = "e?" // what the model says is substituted below
-				}
 				if strings.HasPrefix(tok, "d") {
 					// accepted although altered: only the "footer became all zero" exception is legitimate
 					zero := pos >= len(data)-8 && bytes.Equal(g[len(g)-8:], make([]byte, 8))
@@ -1011,7 +1152,7 @@ func TestVerifC04(t *testing.T) {
 			o := pick(ci)
 			ci++
 			mark(fmt.Sprintf("send-trunc %s %d", f.Name, k))
-			r := vfC04Send(t, f.KVs, data[:k], int64(len(data)), o)
+			r := vfC04SendD("send", f.KVs, data[:k], int64(len(data)), o)
 			vfC04Monitor(s, "send-truncated", f.Name, data[:k], o, r)
 			s.Count("send_truncations")
 		}
@@ -1030,7 +1171,7 @@ func TestVerifC04(t *testing.T) {
 				o := pick(ci)
 				ci++
 				mark(fmt.Sprintf("send-xor %s %d %d", f.Name, pos, m))
-				r := vfC04Send(t, f.KVs, g, int64(len(g)), o)
+				r := vfC04SendD("send", f.KVs, g, int64(len(g)), o)
 				vfC04Monitor(s, "send-altered", f.Name, g, o, r)
 				s.Count("send_alterations")
 			}
@@ -1050,8 +1191,8 @@ func TestVerifC04(t *testing.T) {
 			o.Parallel = 1 + k%3
 			o.Restore = k%2 == 0
 			mark(fmt.Sprintf("send-cached %s %d", f.Name, k))
-			r := vfC04SendCached(t, f.KVs, data[:k], int64(len(data)), o)
-			if r.Hang != "" {
+			r := vfC04SendD("cached", f.KVs, data[:k], int64(len(data)), o)
+			if r.Hang != "" && r.Died == "" {
 				s.Count("viol_hang")
 				s.Violate("hang", fmt.Sprintf("finished cache file %d_%d.rdb holds %d bytes: %s", vfC04Left, len(data), k, r.Hang),
 					map[string]interface{}{"scenario": "send-cached-short-file", "file": f.Name, "held": k, "size": len(data), "rdb": vfutil.Hex(data[:k])})
@@ -1355,8 +1496,7 @@ func TestVerifC04(t *testing.T) {
 				g[pos] ^= byte(rnd.Range(1, 255))
 				sup, risky := vfc20.Classify(g)
 				tok := vfC04ParseGuarded(s, g, risky)
-				if tok == "oom" || tok == "hang" || tok == "crash" {
-					s.Violate(tok, "generated file, altered byte: the process dies", map[string]interface{}{"scenario": "xor-parse", "rdb": vfutil.Hex(g)})
+				if strings.HasPrefix(tok, "!") {
 					continue
 				}
 				if !sup {
@@ -1367,7 +1507,7 @@ func TestVerifC04(t *testing.T) {
 					o := pick(ci)
 					ci++
 					mark("thorough send")
-					r := vfC04Send(t, keep, g, int64(len(g)), o)
+					r := vfC04SendD("send", keep, g, int64(len(g)), o)
 					vfC04Monitor(s, "send-altered", "generated", g, o, r)
 				}
 			}
